@@ -16,19 +16,12 @@ Check (C13_error_sound :
 Check (C13_error_iff :
   forall st root_path root ks,
   error_guard_b st root_path root ks = true ->
-  names_guard_b st ks (all_lines st root_path root ks) = true ->
   (BadLine st root_path (fimports root) <->
    exists e, resolve_imports st root_path root = inl e /\ positioned e = true)).
-Check (C13_no_panic :
-  forall st root_path root ks,
-  closed_b st root_path root ks = true ->
-  names_guard_b st ks (all_lines st root_path root ks) = true ->
-  resolve_imports st root_path root <> inl PanicMissingTarget).
 Check (C13_import_order_irrelevant :
   forall st st' root_path root root' ks ds,
   store_perm st st' -> file_perm root root' ->
   exact_guard_b st root_path root ks = true ->
-  names_guard_b st ks (all_lines st root_path root ks) = true ->
   resolve_imports st root_path root = inr ds ->
   exists ds', resolve_imports st' root_path root' = inr ds' /\ (forall d, In d ds <-> In d ds') /\ NoDup ds').
 Check (C13_guards_on_reachable_lines_only :
@@ -49,38 +42,25 @@ Check (C13_root_cycle_refuted :
     = inr [frag (s "R") 0; Def false (s "Q") 1; frag (s "R") 0; frag (s "FA") 100]
   /\ ~ NoDup [frag (s "R") 0; Def false (s "Q") 1; frag (s "R") 0; frag (s "FA") 100]
   /\ exact_guard_b st_cycle k_main main_cycle (reach_b st_cycle k_main main_cycle) = false).
-Check (C13_dup_target_refuted :
-  exists root, resolve_extensions main_dup_items = inr root
-               /\ resolve_imports st_dup k_main root = inl PanicMissingTarget
-               /\ ~ BadLine st_dup k_main (fimports root)).
 Check (C13_skipped_error_refuted :
   (exists ds, resolve_imports st_skipped k_main main_skipped = inr ds)
   /\ BadLine st_skipped k_main (fimports main_skipped)).
-Check (C13_dup_fragment_masks_refuted :
-  (exists ds, resolve_imports st_masks k_main main_masks = inr ds)
-  /\ BadLine st_masks k_main (fimports main_masks)).
 Check (C13_exact_full_refuted :
   ~ imports_exact_full).
 Check (C13_error_iff_full_refuted :
   ~ imports_error_iff_full).
-Check (C13_no_panic_full_refuted :
-  ~ imports_no_panic_full).
 Print Assumptions C13_imports_terminate.
 Print Assumptions C13_imports_exact.
 Print Assumptions C13_error_sound.
 Print Assumptions C13_error_iff.
-Print Assumptions C13_no_panic.
 Print Assumptions C13_import_order_irrelevant.
 Print Assumptions C13_guards_on_reachable_lines_only.
 Print Assumptions C13_diamond_refuted.
 Print Assumptions C13_respelled_path_refuted.
 Print Assumptions C13_root_cycle_refuted.
-Print Assumptions C13_dup_target_refuted.
 Print Assumptions C13_skipped_error_refuted.
-Print Assumptions C13_dup_fragment_masks_refuted.
 Print Assumptions C13_exact_full_refuted.
 Print Assumptions C13_error_iff_full_refuted.
-Print Assumptions C13_no_panic_full_refuted.
 Check (C13_ext_char :
   forall doc,
   match resolve_extensions doc with
@@ -111,7 +91,6 @@ Check (C13_import_lines_irrelevant :
   forall st st' root_path root root' ks ds,
   store_equiv st st' -> file_equiv root root' ->
   exact_guard_b st root_path root ks = true ->
-  names_guard_b st ks (all_lines st root_path root ks) = true ->
   resolve_imports st root_path root = inr ds ->
   exists ds', resolve_imports st' root_path root' = inr ds' /\ (forall d, In d ds <-> In d ds') /\ NoDup ds').
 Check (C13_ext_perm :
@@ -131,17 +110,11 @@ Check (C13_imports_exact_reach :
 Check (C13_error_iff_reach :
   forall st root_path root,
   agree_b st (all_lines st root_path root (reach_b st root_path root)) = true ->
-  guard_names st root_path root = true ->
   (BadLine st root_path (fimports root) <->
    exists e, resolve_imports st root_path root = inl e /\ positioned e = true)).
-Check (C13_no_panic_reach :
-  forall st root_path root,
-  guard_names st root_path root = true ->
-  resolve_imports st root_path root <> inl PanicMissingTarget).
 Print Assumptions C13_reach_closed.
 Print Assumptions C13_imports_exact_reach.
 Print Assumptions C13_error_iff_reach.
-Print Assumptions C13_no_panic_reach.
 Check (C13_closure_raw :
   forall ds st, StoreOf ds st ->
   forall root_path root_items root, resolve_extensions root_items = inr root ->
@@ -166,3 +139,29 @@ Check (C13_linear_work :
   exists tr : list entry,
     ds = fdefs root ++ tr_defs tr /\ NoDup (map ekey tr) /\ length tr <= length st).
 Print Assumptions C13_linear_work.
+Check (C13_select_exact :
+  forall f i,
+  match select f i with
+  | inr sel => sel = wanted f i /\ missing_names f i = []
+  | inl e => exists n p rest, missing_names f i = (n, p) :: rest /\ e = FragmentNotFound n (ipath i) p
+  end).
+Check (C13_one_line_honoured :
+  forall st root_path root ds,
+  resolve_imports st root_path root = inr ds ->
+  forall k i, RL st root_path (fimports root) k i ->
+    exists i0 f, RL st root_path (fimports root) k i0 /\ lookup st k = Some f /\ missing_names f i0 = []
+                 /\ incl (wanted f i0) ds).
+Check (C13_dup_target_ok :
+  (exists root, resolve_extensions main_dup_items = inr root
+                /\ resolve_imports st_dup k_main root = inr [Def false (s "Q") 0; frag (s "FA") 100])
+  /\ (exists root, resolve_extensions main_dup_items2 = inr root
+                /\ resolve_imports st_dup k_main root = inr [Def false (s "Q") 0; frag (s "FA") 100])).
+Check (C13_dup_fragment_reported :
+  resolve_imports st_masks k_main main_masks = inl (FragmentNotFound (s "FB") (s "./x.graphql") P0)
+  /\ resolve_imports st_masks k_main
+       {| fdefs := [Def false (s "Q") 0]; fimports := [imp (s "./x.graphql") (names [s "FA"])] |}
+     = inr [Def false (s "Q") 0; frag (s "FA") 100; frag (s "FA") 101]).
+Print Assumptions C13_select_exact.
+Print Assumptions C13_one_line_honoured.
+Print Assumptions C13_dup_target_ok.
+Print Assumptions C13_dup_fragment_reported.
